@@ -113,6 +113,8 @@ package main
 //@   ghost gtotal0 int64 = 0
 //@   ghost gnext0 int32 = 0
 //@   at Write#1 before assert [C32.part_hashed_is_part_received] sameSlice(arg0, body)
+//@   at Write#1 before assert [C32.part_hashed_only_after_it_is_stored] gstored
+//@   at Write#2 before assert [C32.part_checksum_hashed_only_after_it_is_stored] gstored && sameSlice(arg0, body)
 //@   at UploadPart#1 before assert [C32.part_stored_is_part_received] arg1 == session.S3Key && arg2 == session.UploadID && arg3 == partNumber && sameSlice(arg4, body) && partNumber == session.NextPart && int64(len(body)) > 0 && int64(session.TotalUploaded + int64(len(body))) <= session.SizeBytes
 //@   at UploadPart#1 after set gtotal0 = session.TotalUploaded
 //@   at UploadPart#1 after set gnext0 = session.NextPart
